@@ -589,7 +589,8 @@ impl Locale {
                 }
                 continue;
             };
-            let key = Key::new(&base_key).unwrap_at("merge_plurals_1");
+            // the base key can be an invalid key even if the suffixed keys are valid (e.g. `type_one`)
+            let key = Key::try_new(&base_key)?;
             key_path.push_key(key);
             if !cfg!(feature = "plurals") && !SKIP_ICU_CFG.get() {
                 return Err(Error::DisabledPlurals {
